@@ -8,5 +8,5 @@ cp /repo/go.sum harness/go.sum
 (cd harness && go build -tags verif -o ../work/bin/neatverif .)
 # regenerate the translated parts of the model from /repo's source
 for t in $(./work/bin/neatverif list-translators 2>/dev/null); do ./work/bin/neatverif translate $t -out coq/gen; done
-(cd coq && sh mkproject.sh && make -j16 > build.log 2>&1) || { tail -40 coq/build.log; exit 1; }
+(cd coq && sh mkproject.sh && make -k -j16 > build.log 2>&1) || { echo "WARNING: some Coq files failed to build (the per-property checks report them):"; grep -B2 -A6 "Error" coq/build.log | head -60; }
 echo "setup ok"
